@@ -171,29 +171,58 @@
         }
         //@ untag
     }
-    /// Blanket `Vec<T>` encoding. NOT VERIFIED (trusted shell): the encoder uses iterator adapters and
-    /// the decoder loops without a progress guard (finding D5). Unreachable from every shipped packet
-    /// type: `Vec` fields are (de)serialised by `ZvtSerializerImpl for Vec<T>`, never through this impl.
+    /// concatenation of the element encodings
+    pub open spec fn vec_blanket_enc<T, E: Encoding<T>>(s: Seq<T>) -> Seq<u8>
+        decreases s.len()
+    {
+        if s.len() == 0 { Seq::<u8>::empty() } else { vec_blanket_enc::<T, E>(s.drop_last()) + E::spec_enc(&s.last()) }
+    }
+    /// Blanket `Vec<T>` encoding. Unreachable from every shipped packet type (`Vec` fields are (de)serialised by
+    /// `ZvtSerializerImpl for Vec<T>`, never through this impl). Verified: the encoder is the concatenation of the element
+    /// encodings (N20); the decoder is panic-free and hands back a tail of its input. NOT verified: that the decoder
+    /// terminates - it loops while input remains and has no progress guard (finding D5: an element decoder that consumes
+    /// nothing would spin) - and what its elements are.
     impl<T, E> Encoding<Vec<T>> for E
     where
         E: Encoding<T>,
     {
-        open spec fn enc_ok(v: &Vec<T>) -> bool { false }
+        open spec fn enc_ok(v: &Vec<T>) -> bool { forall|i: int| 0 <= i < v@.len() ==> E::enc_ok(&(#[trigger] v@[i])) }
         open spec fn canon(v: &Vec<T>) -> bool { false }
-        uninterp spec fn spec_enc(v: &Vec<T>) -> Seq<u8>;
+        open spec fn spec_enc(v: &Vec<T>) -> Seq<u8> { vec_blanket_enc::<T, E>(v@) }
         open spec fn spec_dec(b: Seq<u8>) -> Option<(Vec<T>, int)> {
             match vec_blanket_dec::<T, E>(b) { Some((v, k)) => if 0 <= k <= b.len() { Some((v, k)) } else { None }, None => None }
         }
         open spec fn progresses() -> bool { false }
-        //@ fn src:zvt_builder/src/encoding.rs | impl Encoding<Vec<T>> for E | encode | ext props=C17,C03
+        //@ fn src:zvt_builder/src/encoding.rs | impl Encoding<Vec<T>> for E | encode | all-loops props=C17,C03 $M
+        //@ loop 0
+                invariant
+                    <E as Encoding<Vec<T>>>::enc_ok(input),
+                    iter.index@ <= input@.len(),
+                    __out@ =~= vec_blanket_enc::<T, E>(input@.take(iter.index@ as int)),
+        //@ before let mut__part=
+                proof {
+                    let i = iter.index@ as int;
+                    assert(input@.take(i + 1).drop_last() =~= input@.take(i));
+                    assert(input@.take(i + 1).last() == input@[i]);
+                }
+        //@ tail
+                proof { assert(input@.take(input@.len() as int) =~= input@); }
         //@ end
-        //@ fn src:zvt_builder/src/encoding.rs | impl Encoding<Vec<T>> for E | decode | ext props=C02,C17
+        //@ fn src:zvt_builder/src/encoding.rs | impl Encoding<Vec<T>> for E | decode | all-loops shadowmut props=C02,C14 $M
+        //@ loop 0
+                invariant
+                    is_tail(bytes@, __p_bytes@), crate::frame::tail_base(__p_bytes@),
+        //@ entry
+            proof { crate::frame::lemma_tail_base(__p_bytes@); }
+        //@ attr
+        #[verifier::exec_allows_no_decreases_clause]
         //@ end
         open spec fn self_delimiting() -> bool { false }
         open spec fn dec_rel(b: Seq<u8>, v: &Vec<T>, k: int) -> bool { true }
         open spec fn dec_total(b: Seq<u8>) -> bool { false }
         open spec fn dec_stop(rest: Seq<u8>) -> bool { true }
-        open spec fn functional() -> bool { true }
+        /// element content and termination are not specified (see above)
+        open spec fn functional() -> bool { false }
         proof fn law_dec_bounds(b: Seq<u8>) {}
         proof fn law_dec_frame(b: Seq<u8>, s: Seq<u8>) {}
         proof fn law_inverse(v: &Vec<T>) {}
